@@ -23,26 +23,26 @@ Qed.
 Lemma dec_not_space c : is_dec c = true -> is_space c = false.
 Proof. intro H. apply digit_not_space. exact H. Qed.
 
-Lemma blank_line_is_blank l : forallb blank_char l = true -> is_blank (l ++ [10]) = true.
+Lemma blank_line_is_blank l e : eol_ok e -> forallb blank_char l = true -> is_blank (l ++ e) = true.
 Proof.
-  intro H. unfold is_blank. destruct (l ++ [10]) eqn:E; [destruct l; discriminate|]. rewrite <- E.
-  rewrite forallb_app. apply andb_true_iff. split; [|vm_compute; reflexivity].
+  intros Ee H. unfold is_blank. destruct (l ++ e) eqn:E; [destruct Ee; subst e; destruct l; discriminate|]. rewrite <- E.
+  rewrite forallb_app. apply andb_true_iff. split; [|destruct Ee; subst e; vm_compute; reflexivity].
   rewrite forallb_forall in *. auto using blank_is_space.
 Qed.
-Lemma nonblank_line l : negb (all_ws l) = true -> is_blank (l ++ [10]) = false.
+Lemma nonblank_line l e : negb (all_ws l) = true -> is_blank (l ++ e) = false.
 Proof.
-  intro H. unfold is_blank. destruct (l ++ [10]) eqn:E; [reflexivity|]. rewrite <- E.
+  intro H. unfold is_blank. destruct (l ++ e) eqn:E; [reflexivity|]. rewrite <- E.
   apply negb_true_iff in H. unfold all_ws in H.
-  destruct (forallb is_space (l ++ [10])) eqn:F; [|reflexivity].
+  destruct (forallb is_space (l ++ e)) eqn:F; [|reflexivity].
   rewrite forallb_app in F. apply andb_true_iff in F as [F _].
   assert (forallb ws_char l = true); [|congruence].
   rewrite forallb_forall in *. auto using space_is_ws.
 Qed.
-Lemma counter_line l : existsb is_dec l = true -> is_blank (l ++ [10]) = false /\ has_digit (l ++ [10]) = true.
+Lemma counter_line l e : existsb is_dec l = true -> is_blank (l ++ e) = false /\ has_digit (l ++ e) = true.
 Proof.
   intro H. apply existsb_exists in H as (c & I & D). split.
-  - unfold is_blank. destruct (l ++ [10]) eqn:E; [reflexivity|]. rewrite <- E.
-    destruct (forallb is_space (l ++ [10])) eqn:F; [|reflexivity].
+  - unfold is_blank. destruct (l ++ e) eqn:E; [reflexivity|]. rewrite <- E.
+    destruct (forallb is_space (l ++ e)) eqn:F; [|reflexivity].
     rewrite forallb_forall in F. specialize (F c (in_or_app _ _ _ (or_introl I))).
     rewrite dec_not_space in F by auto. discriminate.
   - unfold has_digit. apply existsb_exists. exists c. split; [apply in_or_app; auto|apply dec_is_udigit; auto].
@@ -50,7 +50,7 @@ Qed.
 
 (* ------------------------------------------------------------------ what a cue becomes *)
 Definition kids_of (p : list node) : list elem :=
-  match parse_text true (rw (print_nodes p)) with Ok k => k | _ => [] end.
+  match parse_text (rw (print_nodes p)) with Ok k => k | _ => [] end.
 Definition pcue_of (c : cue_src) : pcue :=
   mkP (clock_seconds (c_begin c)) (clock_seconds (c_end c)) (kids_of (c_payload c)).
 Definition cue_ok (c : cue_src) : Prop := payload_good (c_payload c) /\ no_cr (print_nodes (c_payload c)).
@@ -65,12 +65,12 @@ Qed.
 Lemma run_continue l ls s s' : step s l = Continue s' -> run (l :: ls) s = run ls s'.
 Proof. intro H. cbn [run]. rewrite H. reflexivity. Qed.
 
-Lemma run_blank_counter bs : forall rest d tm att tx, forallb (forallb blank_char) bs = true ->
-  run (with_lf bs ++ rest) (mkM COUNTER d tm att tx) = run rest (mkM COUNTER d tm att tx).
+Lemma run_blank_counter e bs : eol_ok e -> forall rest d tm att tx, forallb (forallb blank_char) bs = true ->
+  run (with_eol e bs ++ rest) (mkM COUNTER d tm att tx) = run rest (mkM COUNTER d tm att tx).
 Proof.
-  induction bs as [|b bs IH]; intros rest d tm att tx H; [reflexivity|].
+  intro Ee. induction bs as [|b bs IH]; intros rest d tm att tx H; [reflexivity|].
   cbn [forallb] in H. apply andb_true_iff in H as [H1 H2].
-  cbn [with_lf map app]. erewrite run_continue; [apply IH; auto|].
+  rewrite with_eol_cons. cbn [app]. erewrite run_continue; [apply IH; auto|].
   unfold step. cbn [m_mode]. rewrite blank_line_is_blank by auto. reflexivity.
 Qed.
 
@@ -84,7 +84,8 @@ Record cue_wf (c : cue_src) : Prop := {
   w_blank : forallb (forallb blank_char) (c_blank c) = true;
   w_counter_eol : no_eol (c_counter c) = true;
   w_tail_eol : no_eol (c_tail c) = true;
-  w_nodes : forallb wf_node (c_payload c) = true }.
+  w_nodes : forallb wf_node (c_payload c) = true;
+  w_stray : forallb (stray_ok None) (c_payload c) = true }.
 
 Lemma wf_cue_fields last c : wf_cue last c = true -> cue_wf c /\ (last = false -> c_blank c <> []).
 Proof.
@@ -100,42 +101,45 @@ Qed.
 Lemma spaces_of_blanks ws : forallb blank_char ws = true -> forallb is_space ws = true.
 Proof. intro H. rewrite forallb_forall in *. auto using blank_is_space. Qed.
 
-Lemma step_timing c d tm att tx : cue_wf c ->
-  step (mkM TC d tm att tx) (timing_line c ++ [10]) =
+Lemma step_timing e c d tm att tx : cue_wf c ->
+  step (mkM TC d tm att tx) (timing_line c ++ e) =
   Continue (mkM TEXT d (clock_seconds (c_begin c), clock_seconds (c_end c)) false tx).
 Proof.
-  intros W. destruct W as [_ Wb We [N1 B1] [N2 B2] _ _ _ _ _].
+  intros W. destruct W as [_ Wb We [N1 B1] [N2 B2] _ _ _ _ _ _].
   unfold step. cbn [m_mode m_done m_text].
-  assert (E : timing_line c ++ [10] =
+  assert (E : timing_line c ++ e =
               timing_text (hours_text (c_begin c)) (pad2 (k_m (c_begin c))) (pad2 (k_s (c_begin c))) (pad3 (k_ms (c_begin c)))
                           (c_ws1 c) (c_ws2 c)
                           (hours_text (c_end c)) (pad2 (k_m (c_end c))) (pad2 (k_s (c_end c))) (pad3 (k_ms (c_end c)))
-                          (c_tail c ++ [10])).
+                          (c_tail c ++ e)).
   { unfold timing_line, timing_text. rewrite !print_clock_text. repeat rewrite <- app_assoc. reflexivity. }
   rewrite E. rewrite search_tc_spec; auto using clock_digits_print, spaces_of_blanks.
   cbn [g_bh g_bm g_bs g_bms g_eh g_em g_es g_ems]. rewrite !clock_value by auto. reflexivity.
 Qed.
 
-Lemma run_text_more ls : forall rest d tm tx, forallb (fun l => negb (all_ws l)) ls = true ->
-  run (with_lf ls ++ rest) (mkM TEXT_MORE d tm true tx) = run rest (mkM TEXT_MORE d tm true (tx ++ concat (with_lf ls))).
+Definition clean_lines (ls : list text) : Prop := Forall no_lf ls /\ Forall no_cr ls.
+
+Lemma run_text_more e ls : eol_ok e -> forall rest d tm tx, forallb (fun l => negb (all_ws l)) ls = true -> clean_lines ls ->
+  run (with_eol e ls ++ rest) (mkM TEXT_MORE d tm true tx) = run rest (mkM TEXT_MORE d tm true (tx ++ concat (with_lf ls))).
 Proof.
-  induction ls as [|l ls IH]; intros rest d tm tx H.
-  - cbn [with_lf map concat app]. rewrite app_nil_r. reflexivity.
-  - cbn [forallb] in H. apply andb_true_iff in H as [H1 H2].
-    cbn [with_lf map app]. erewrite run_continue.
+  intro Ee. induction ls as [|l ls IH]; intros rest d tm tx H [C1 C2].
+  - cbn [with_eol with_lf map concat app]. rewrite app_nil_r. reflexivity.
+  - cbn [forallb] in H. apply andb_true_iff in H as [H1 H2]. inversion C1; subst. inversion C2; subst.
+    rewrite with_eol_cons. cbn [app]. erewrite run_continue.
     2:{ unfold step. cbn [m_mode]. rewrite nonblank_line by auto. reflexivity. }
-    cbn [m_done m_times m_attached m_text]. fold (with_lf ls). rewrite IH by auto.
-    cbn [concat]. rewrite !app_assoc. reflexivity.
+    cbn [m_done m_times m_attached m_text]. rewrite rstrip_line by auto. rewrite IH by (auto; split; auto).
+    unfold with_lf. rewrite with_eol_cons. cbn [concat]. rewrite !app_assoc. reflexivity.
 Qed.
 
-Lemma run_payload ls rest d tm att tx : ls <> [] -> forallb (fun l => negb (all_ws l)) ls = true ->
-  run (with_lf ls ++ rest) (mkM TEXT d tm att tx) = run rest (mkM TEXT_MORE d tm true (concat (with_lf ls))).
+Lemma run_payload e ls rest d tm att tx : eol_ok e -> ls <> [] -> forallb (fun l => negb (all_ws l)) ls = true -> clean_lines ls ->
+  run (with_eol e ls ++ rest) (mkM TEXT d tm att tx) = run rest (mkM TEXT_MORE d tm true (concat (with_lf ls))).
 Proof.
-  intros N H. destruct ls as [|l ls]; [congruence|].
-  cbn [forallb] in H. apply andb_true_iff in H as [H1 H2].
-  cbn [with_lf map app]. erewrite run_continue.
+  intros Ee N H [C1 C2]. destruct ls as [|l ls]; [congruence|].
+  cbn [forallb] in H. apply andb_true_iff in H as [H1 H2]. inversion C1; subst. inversion C2; subst.
+  rewrite with_eol_cons. cbn [app]. erewrite run_continue.
   2:{ unfold step. cbn [m_mode]. rewrite nonblank_line by auto. reflexivity. }
-  cbn [m_done m_times]. fold (with_lf ls). rewrite run_text_more by auto. reflexivity.
+  cbn [m_done m_times]. rewrite rstrip_line by auto. rewrite run_text_more by (auto; split; auto).
+  unfold with_lf. rewrite with_eol_cons. cbn [concat]. rewrite <- app_assoc. reflexivity.
 Qed.
 
 Lemma finish_cue_good c d tm : cue_wf c -> cue_ok c ->
@@ -153,50 +157,54 @@ Qed.
 Lemma payload_lines_nonempty p : payload_lines p <> [].
 Proof. rewrite payload_lines_split. apply split_lf_nonempty. Qed.
 
+Lemma payload_clean c : cue_ok c -> clean_lines (payload_lines (c_payload c)).
+Proof.
+  intros [_ Cr]. rewrite payload_lines_split. split; [apply split_lf_no_lf|apply split_lf_no_cr; auto].
+Qed.
+
 (* one cue followed by at least one blank line *)
-Lemma run_cue c rest d tm att tx : cue_wf c -> cue_ok c -> c_blank c <> [] ->
-  run (with_lf (cue_lines c) ++ rest) (mkM COUNTER d tm att tx) =
+Lemma run_cue e c rest d tm att tx : eol_ok e -> cue_wf c -> cue_ok c -> c_blank c <> [] ->
+  run (with_eol e (cue_lines c) ++ rest) (mkM COUNTER d tm att tx) =
   run rest (mkM COUNTER (d ++ [pcue_of c]) (clock_seconds (c_begin c), clock_seconds (c_end c)) true
                 (concat (with_lf (payload_lines (c_payload c))))).
 Proof.
-  intros W G B. unfold cue_lines. cbn [with_lf map app].
+  intros Ee W G B. unfold cue_lines. rewrite !with_eol_cons. cbn [app].
   erewrite run_continue.
-  2:{ unfold step. cbn [m_mode]. destruct (counter_line _ (w_counter c W)) as [A1 A2]. rewrite A1, A2. reflexivity. }
+  2:{ unfold step. cbn [m_mode]. destruct (counter_line _ e (w_counter c W)) as [A1 A2]. rewrite A1, A2. reflexivity. }
   cbn [m_done m_times m_attached m_text].
   erewrite run_continue; [|apply step_timing; auto].
-  fold (with_lf (payload_lines (c_payload c) ++ c_blank c)). unfold with_lf at 1. rewrite map_app. fold (with_lf (payload_lines (c_payload c))). fold (with_lf (c_blank c)).
-  rewrite <- app_assoc. rewrite run_payload by (auto using payload_lines_nonempty, w_lines).
+  rewrite with_eol_app. rewrite <- app_assoc.
+  rewrite run_payload by (auto using payload_lines_nonempty, w_lines, payload_clean).
   destruct (c_blank c) as [|b bs] eqn:EB; [congruence|].
   pose proof (w_blank c W) as WB. rewrite EB in WB. cbn [forallb] in WB. apply andb_true_iff in WB as [WB1 WB2].
-  cbn [with_lf map app]. erewrite run_continue.
+  rewrite with_eol_cons. cbn [app]. erewrite run_continue.
   2:{ unfold step. cbn [m_mode]. rewrite blank_line_is_blank by auto. apply finish_cue_good; auto. }
-  fold (with_lf bs). rewrite run_blank_counter by auto. reflexivity.
+  rewrite run_blank_counter by auto. reflexivity.
 Qed.
 
 (* the last cue may be followed by the end of the file directly *)
-Lemma run_cue_eof c d tm att tx : cue_wf c -> cue_ok c -> c_blank c = [] ->
-  run (with_lf (cue_lines c)) (mkM COUNTER d tm att tx) = Ok (d ++ [pcue_of c]).
+Lemma run_cue_eof e c d tm att tx : eol_ok e -> cue_wf c -> cue_ok c -> c_blank c = [] ->
+  run (with_eol e (cue_lines c)) (mkM COUNTER d tm att tx) = Ok (d ++ [pcue_of c]).
 Proof.
-  intros W G B. unfold cue_lines. rewrite B. rewrite app_nil_r. cbn [with_lf map].
+  intros Ee W G B. unfold cue_lines. rewrite B. rewrite app_nil_r. rewrite !with_eol_cons.
   erewrite run_continue.
-  2:{ unfold step. cbn [m_mode]. destruct (counter_line _ (w_counter c W)) as [A1 A2]. rewrite A1, A2. reflexivity. }
+  2:{ unfold step. cbn [m_mode]. destruct (counter_line _ e (w_counter c W)) as [A1 A2]. rewrite A1, A2. reflexivity. }
   cbn [m_done m_times m_attached m_text].
   erewrite run_continue; [|apply step_timing; auto].
-  fold (with_lf (payload_lines (c_payload c))).
-  rewrite <- (app_nil_r (with_lf (payload_lines (c_payload c)))).
-  rewrite run_payload by (auto using payload_lines_nonempty, w_lines).
+  rewrite <- (app_nil_r (with_eol e (payload_lines (c_payload c)))).
+  rewrite run_payload by (auto using payload_lines_nonempty, w_lines, payload_clean).
   cbn [run at_eof m_mode]. rewrite finish_cue_good by auto. reflexivity.
 Qed.
 
-Lemma run_cues cs : wf_cues cs = true -> Forall cue_ok cs -> forall d tm att tx,
-  run (with_lf (flat_map cue_lines cs)) (mkM COUNTER d tm att tx) = Ok (d ++ map pcue_of cs).
+Lemma run_cues e cs : eol_ok e -> wf_cues cs = true -> Forall cue_ok cs -> forall d tm att tx,
+  run (with_eol e (flat_map cue_lines cs)) (mkM COUNTER d tm att tx) = Ok (d ++ map pcue_of cs).
 Proof.
-  induction cs as [|c cs IH]; intros W G d tm att tx.
+  intro Ee. induction cs as [|c cs IH]; intros W G d tm att tx.
   - cbn. rewrite app_nil_r. reflexivity.
-  - inversion G as [|? ? Gc Gs]; subst. cbn [flat_map map]. unfold with_lf. rewrite map_app. fold (with_lf (cue_lines c)). fold (with_lf (flat_map cue_lines cs)).
+  - inversion G as [|? ? Gc Gs]; subst. cbn [flat_map map]. rewrite with_eol_app.
     destruct cs as [|c' cs'].
     + cbn [wf_cues] in W. destruct (wf_cue_fields _ _ W) as [Wc _].
-      cbn [flat_map]. change (with_lf []) with (@nil text).
+      cbn [flat_map]. change (with_eol e []) with (@nil text).
       destruct (c_blank c) as [|b bs] eqn:EB.
       * rewrite app_nil_r. rewrite run_cue_eof; auto.
       * rewrite run_cue by (auto; congruence).
@@ -217,10 +225,6 @@ Proof.
   unfold no_lf, no_cr, is_digit. intro H. rewrite forallb_forall in H.
   split; apply forallb_forall; intros x I; specialize (H x I); lia.
 Qed.
-Lemma no_lf_app a b : no_lf a -> no_lf b -> no_lf (a ++ b).
-Proof. unfold no_lf. intros. rewrite forallb_app. apply andb_true_iff; auto. Qed.
-Lemma no_cr_app a b : no_cr a -> no_cr b -> no_cr (a ++ b).
-Proof. unfold no_cr. intros. rewrite forallb_app. apply andb_true_iff; auto. Qed.
 
 Lemma clock_no_eol k : wf_clock k = true -> no_lf (print_clock k) /\ no_cr (print_clock k).
 Proof.
@@ -275,11 +279,11 @@ Proof.
 Qed.
 
 (* ------------------------------------------------------------------ the round trip *)
-Lemma run_file f : wf_file f = true -> Forall cue_ok (f_cues f) ->
-  run (with_lf (file_lines f)) m_init = Ok (map pcue_of (f_cues f)).
+Lemma run_file e f : eol_ok e -> wf_file f = true -> Forall cue_ok (f_cues f) ->
+  run (with_eol e (file_lines f)) m_init = Ok (map pcue_of (f_cues f)).
 Proof.
-  intros W G. unfold wf_file in W. apply andb_true_iff in W as [WL WC].
-  unfold file_lines, with_lf. rewrite map_app. fold (with_lf (f_lead f)). fold (with_lf (flat_map cue_lines (f_cues f))).
+  intros Ee W G. unfold wf_file in W. apply andb_true_iff in W as [WL WC].
+  unfold file_lines. rewrite with_eol_app.
   unfold m_init. rewrite run_blank_counter by auto. rewrite run_cues by auto. reflexivity.
 Qed.
 
@@ -292,39 +296,26 @@ Theorem roundtrip_file f : wf_file f = true -> f_final_eol f = true -> Forall cu
 Proof.
   intros W Fe G. destruct (file_lines_no_eol f W G) as [L1 L2].
   unfold read_cues_file, to_model_file, to_model.
-  assert (R : readlines (universal (print_file f)) = with_lf (file_lines f)).
-  { destruct (f_crlf f) eqn:C.
-    - apply readlines_print_crlf; auto.
-    - rewrite <- readlines_print_lf; auto. f_equal.
-      (* no CR in the printed text: universal is the identity *)
-      unfold print_file. rewrite C, Fe. cbn [eol]. rewrite join_final.
-      clear - L2. induction L2 as [|l ls Hl _ IH]; [reflexivity|].
-      cbn [map concat]. rewrite <- app_assoc. cbn [app].
-      assert (U : forall a b, no_cr a -> universal (a ++ 10 :: b) = a ++ 10 :: universal b).
-      { clear. unfold no_cr. induction a as [|x a IHa]; intros b H; [reflexivity|].
-        cbn [forallb] in H. apply andb_true_iff in H as [H1 H2]. cbn [app universal].
-        destruct (x =? 13) eqn:E; [discriminate|]. rewrite IHa by auto. reflexivity. }
-      rewrite U by auto. rewrite IH. reflexivity. }
-  rewrite R. rewrite run_file by auto. cbn [outcome_map]. rewrite observe_all by auto. reflexivity.
+  rewrite readlines_print_universal by auto.
+  rewrite run_file by (auto; left; reflexivity). cbn [outcome_map]. rewrite observe_all by auto. reflexivity.
 Qed.
 
-(* reading through a stream that does not translate newlines: LF files *)
-Theorem roundtrip_lf f : wf_file f = true -> f_final_eol f = true -> f_crlf f = false -> Forall cue_ok (f_cues f) ->
+(* reading through a stream that does not translate newlines: LF or CR LF terminators all the same *)
+Theorem roundtrip_stream f : wf_file f = true -> f_final_eol f = true -> Forall cue_ok (f_cues f) ->
   read_cues (print_file f) = Ok (cues f).
 Proof.
-  intros W Fe C G. destruct (file_lines_no_eol f W G) as [L1 L2].
-  unfold read_cues, to_model. rewrite readlines_print_lf by auto.
-  rewrite run_file by auto. cbn [outcome_map]. rewrite observe_all by auto. reflexivity.
+  intros W Fe G. destruct (file_lines_no_eol f W G) as [L1 L2].
+  unfold read_cues, to_model. rewrite readlines_print by auto.
+  rewrite run_file by auto using eol_ok_eol. cbn [outcome_map]. rewrite observe_all by auto. reflexivity.
 Qed.
 
 (* tag-free files *)
-Lemma plain_cues_ok f : wf_file f = true -> plain_file f = true -> trigger_backslash f = false ->
-  Forall cue_ok (f_cues f).
+Lemma plain_cues_ok f : wf_file f = true -> plain_file f = true -> Forall cue_ok (f_cues f).
 Proof.
-  unfold wf_file, plain_file, trigger_backslash. intros W P T. apply andb_true_iff in W as [_ W].
+  unfold wf_file, plain_file. intros W P. apply andb_true_iff in W as [_ W].
   pose proof (wf_cues_each _ W) as E. clear W.
   induction (f_cues f) as [|c cs IH]; [constructor|].
-  cbn [forallb existsb] in *. apply andb_true_iff in P as [P1 P2]. apply orb_false_iff in T as [T1 T2].
+  cbn [forallb] in *. apply andb_true_iff in P as [P1 P2].
   inversion E; subst. constructor; auto.
   unfold cue_ok. apply plain_payload_good; auto.
   - apply (w_nodes c H1).
@@ -332,8 +323,8 @@ Proof.
 Qed.
 
 Theorem roundtrip_plain_file f : wf_file f = true -> f_final_eol f = true -> plain_file f = true ->
-  trigger_backslash f = false -> read_cues_file (print_file f) = Ok (cues f).
+  read_cues_file (print_file f) = Ok (cues f).
 Proof. intros. apply roundtrip_file; auto using plain_cues_ok. Qed.
-Theorem roundtrip_plain_lf f : wf_file f = true -> f_final_eol f = true -> f_crlf f = false -> plain_file f = true ->
-  trigger_backslash f = false -> read_cues (print_file f) = Ok (cues f).
-Proof. intros. apply roundtrip_lf; auto using plain_cues_ok. Qed.
+Theorem roundtrip_plain_stream f : wf_file f = true -> f_final_eol f = true -> plain_file f = true ->
+  read_cues (print_file f) = Ok (cues f).
+Proof. intros. apply roundtrip_stream; auto using plain_cues_ok. Qed.
